@@ -7,6 +7,7 @@ import ChythonModel.Proofs.C07Top
 import ChythonModel.Proofs.C07Multi3
 import ChythonModel.Proofs.C07Multi4
 import ChythonModel.Proofs.C07StereoSpec
+import ChythonModel.Proofs.C07Fast
 import ChythonModel.Spec.StereoMatch
 /-!
 # C07 — substructure search returns exactly the set of valid embeddings
@@ -717,6 +718,96 @@ theorem get_mapping_stereo_filtered_partial (p : Problem) (qm : QMarks) (tl : TL
     refine ⟨by simp [queryGetMapping, hiso, stereo_filter_no_marks p.q qm tl _ ha hbm], f3⟩
 
 end stereo
+
+/-! ## `get_fast_mapping` and the `match_stereo=True` branch -/
+
+section fast
+
+/-- `get_fast_mapping` answers `None` exactly when the sizes differ or the two molecules compare unequal; otherwise (the SMILES
+    atom order of `self` has no repetition) its answer is the position-wise pairing of the two SMILES atom orders -/
+theorem fast_mapping_spec (lenSelf lenOther : Nat) (so oo : List Nat) (equal : Bool) :
+    (getFastMapping lenSelf lenOther so oo equal = none ↔ lenSelf ≠ lenOther ∨ equal = false) ∧
+    (so.Nodup → ∀ d, getFastMapping lenSelf lenOther so oo equal = some d → d = so.zip oo) := by
+  constructor
+  · unfold getFastMapping
+    by_cases h1 : lenSelf = lenOther <;> cases equal <;> simp [h1]
+  · intro hnd d hd
+    unfold getFastMapping at hd
+    split at hd
+    · cases hd
+    · split at hd
+      · cases hd
+      · simp only [Option.some.injEq] at hd
+        rw [← hd]
+        have key : ∀ (l acc : Dict), (acc ++ l).map (·.1) |>.Nodup →
+            l.foldl (fun acc p => acc.set p.1 p.2) acc = acc ++ l := by
+          intro l
+          induction l with
+          | nil => intro acc _; simp
+          | cons x rest ih =>
+            intro acc hn
+            have hx : acc.any (·.1 == x.1) = false := by
+              rw [Bool.eq_false_iff]
+              intro hc
+              rw [List.any_eq_true] at hc
+              obtain ⟨y, hy, e⟩ := hc
+              have e' : y.1 = x.1 := by simpa using e
+              simp only [List.map_append, List.map_cons] at hn
+              have := (List.nodup_append.1 hn).2.2 y.1 (List.mem_map_of_mem hy) x.1 (by simp)
+              exact this e'
+            have hs : acc.set x.1 x.2 = acc ++ [x] := by simp [Dict.set, hx]
+            rw [List.foldl_cons, hs, ih (acc ++ [x]) (by simpa using hn)]
+            simp
+        have hsub : ∀ (a b : List Nat), ((a.zip b).map (·.1)).Sublist a := by
+          intro a
+          induction a with
+          | nil => intro b; simp
+          | cons x xs ih =>
+            intro b
+            cases b with
+            | nil => simp
+            | cons y ys => simpa using ih ys
+        have hz : ((so.zip oo).map (·.1)).Nodup := List.Nodup.sublist (hsub so oo) hnd
+        simpa using key (so.zip oo) [] (by simpa using hz)
+
+example : getFastMapping 3 3 [2, 1, 3] [7, 9, 8] true = some [(2, 7), (1, 9), (3, 8)] ∧
+    getFastMapping 3 3 [2, 1, 3] [7, 9, 8] false = none ∧ getFastMapping 3 4 [2, 1, 3] [7, 9, 8] true = none := by decide
+
+/-- **`get_fast_mapping` returns one of `get_mapping`'s mappings**: a dict accepted by the executable checker `isoCheck` (the
+    driver applies it to the REAL `get_fast_mapping` output on every case) is a valid embedding of the whole pattern, hence — by
+    `get_mapping_exact` — occurs in the list `get_mapping(automorphism_filter=False)` returns (as the dict with the keys in
+    linearisation order; Python dict equality ignores key order). -/
+theorem fast_mapping_member (p : Problem) (d : Dict) (hq : p.q.WF = true) (ht : p.t.WF = true)
+    (hpart : checkComponents p.t p.tComps = true) (hb : BondSymm p.bondOk) (hatoms : p.q.atoms ≠ [])
+    (haf : p.autoFilter = false) (hs : p.scope = none) (hc : isoCheck p d = true) :
+    ∃ comps cl r, compileQuery p.q = some (comps, cl) ∧ isoGetMapping p = some r ∧
+      asDict (comps.flatten.map (·.front)) (fun u => (d.lookup u).getD 0) ∈ r ∧
+      IsEmbedding p.q p.t (scopeFn p.scope) p.atomOk p.bondOk (fun u => (d.lookup u).getD 0) := by
+  obtain ⟨comps, cl, r, hcq, hr, _, hmem⟩ := get_mapping_exact p hq ht hpart hb hatoms haf
+  have hE := isoCheck_sound p d hq ht hc
+  have hsc : scopeFn p.scope = fun _ => true := by
+    funext x; simp [scopeFn, hs]
+  rw [← hsc] at hE
+  exact ⟨comps, cl, r, hcq, hr, (hmem _).2 ⟨_, rfl, hE⟩, hE⟩
+
+/-- the `match_stereo=True` branch with the filter on: exactly the non-empty `get_fast_mapping` answers, in order -/
+theorem match_stereo_filtered (items : List (Option Dict × List Dict)) :
+    matchStereo true items =
+      some (items.filterMap fun it => match it.1 with
+        | some fm => if fm.isEmpty then none else some fm
+        | none => none) := by
+  induction items with
+  | nil => rfl
+  | cons it rest ih =>
+    obtain ⟨fm?, autos⟩ := it
+    cases fm? with
+    | none => simp [matchStereo, ih]
+    | some fm =>
+      cases fm with
+      | nil => simp [matchStereo, ih]
+      | cons x xs => simp [matchStereo, ih]
+
+end fast
 
 /-- **`lazyProduct_exact`**: `lazy_product(*args)` yields a rearrangement of the cartesian product — every combination (by
     position) exactly once — and yields nothing iff some factor is empty. -/
